@@ -135,6 +135,7 @@ func main() {
 		signers[s] = lib.SimpleChain("c07-"+s, 1, s, 0)
 	}
 	metas := []map[string]string{nil, {}, {"k": "v"}, {"buildId": "101", "commit": "abc", "team": "x", "env": "prod", "n": "5"}, {"ключ": "значение ✓", "emoji": "🚀"}, {"quote\"key": "a\\b\"c", "brace": "{[,:]}", "nl": "line1\nline2", "empty": ""},
+		{"digest": "sha256:not-a-digest", "size": "1", "mediaType": "m", "annotations": "a", "targetArtifact": "t"}, // (keys spelled like members of the signed payload are user metadata like any other)
 		{"com.example.mirror.io.cncf.notary.buildId": "7", "x-io.cncf.notary": "legal: the reserved namespace is a PREFIX", "IO.CNCF.NOTARY.upper": "v", "io.cncf.notar": "y", "io.cncf": "notary"}}
 	mediaTypes := []string{"application/octet-stream", "text/plain; charset=utf-8", "application/vnd.example.thing+json", "application/x-tar; version=1; q=\"a b\""}
 	sizes := []int{0, 1, 63, 64, 65, 4096, 1 << 20}
